@@ -143,6 +143,13 @@ def immutable(types, desc, cfg, reread=True):
     if b1[0] == "bytes" and b2[0] == "bytes":
         check(b1[1] == b2[1], "serializing a deserialized instance twice yields identical bytes")
     no_assign(back, "byte_size", 0, desc["name"] + "(deserialized).byte_size")
+    # the receive buffer belongs to the caller: overwriting it after the read does not reach the instance
+    for i in range(len(a)):
+        a[i] = (a[i] + 1) % 256
+    b4 = ser_outcome(cls, back)
+    check(b4[0] == b1[0], "reusing the receive buffer leaves the instance serializing the same way")
+    if b4[0] == "bytes" and b1[0] == "bytes":
+        check(b4[1] == b1[1], "reusing the receive buffer leaves the bytes of the instance unchanged")
     # instances are snapshots: reading further objects of the class (from other data) leaves earlier ones as they were
     r2 = EoReader(bytearray())
     r2.chunked_reading_mode = desc["entry"]
